@@ -31,7 +31,7 @@ type c18Params struct {
 func (c18) ID() string    { return "C18" }
 func (c18) Level() string { return "fault_enumeration" }
 func (c18) Rule() string {
-	return "enumerates hostile ClientHello behaviours against real DTLCP servers whose private keys are counting wrappers: repeated cookie-less hellos; a cookie-less hello naming a session the server has cached (its suite offered or not); a valid cookie presented with each covered field changed (version, random, session id, cipher suites, compression methods); every single-byte change (two masks), truncation, extension and removal of a valid cookie; the cookie replayed from another source address (second server connection with the same secret) and to a server with a different / per-connection random secret (no secret given as nil or as an empty slice); positive controls (same address, hello and secret on a fresh server connection must be accepted and then touch the keys); x configured secret or none x ECC and ECDHE suite. distinct = distinct (variant, parameters); non-trivial = the server answered the hello under test"
+	return "enumerates hostile ClientHello behaviours against real DTLCP servers whose private keys are counting wrappers: repeated cookie-less hellos; a cookie-less hello naming a session the server has cached (its suite offered or not); a valid cookie presented with each covered field changed (version, random, session id, cipher suites, compression methods); every single-byte change (two masks), truncation, extension and removal of a valid cookie; the cookie replayed from another source address (second server connection with the same secret) and to a server with a different / per-connection random secret (no secret given as nil or as an empty slice; with a Config.Rand that returns short reads the secret is still drawn in full); positive controls (same address, hello and secret on a fresh server connection must be accepted and then touch the keys); x configured secret or none x ECC and ECDHE suite. distinct = distinct (variant, parameters); non-trivial = the server answered the hello under test"
 }
 func (c18) Components() (real, stub []string) {
 	return []string{"dtlcp server (instrumented): cookie generation / verification, cookie loop, certificate selection, key use"},
@@ -70,6 +70,9 @@ func c18Cases() []c18Params {
 				add("other-address", 0, 0)
 				add("other-server", 0, 0)
 				if !secret {
+					// the server's Config.Rand hands out 3 bytes per call: the per-connection secret must still
+					// be drawn in full (at least 32 bytes of randomness taken before the first HelloVerifyRequest)
+					add("short-rand-secret", 0, 0)
 					// "no secret configured" given as an empty, non-nil slice: still one random secret per connection
 					add("other-server-empty-secret", 0, 0)
 				}
@@ -162,6 +165,9 @@ func (c18) Run(c *Case, src *vs.Src) *Result {
 		sc := &EPConf{Suites: []uint16{p.Suite}, Certs: []string{"server_sig", "server_enc"}, ClientCAs: []string{"ca1"}, WrapKeys: true, CookieSecret: secret}
 		if p.Variant == "other-server-empty-secret" {
 			sc.CookieSecretEmpty = true
+		}
+		if p.Variant == "short-rand-secret" {
+			sc.ShortRand = true
 		}
 		if cachedID != nil {
 			sc.Cache = "s"
@@ -264,6 +270,16 @@ func (c18) Run(c *Case, src *vs.Src) *Result {
 		}
 		if env.KeyOps.Total() != 0 {
 			verdicts = append(verdicts, fmt.Sprintf("private keys used before a valid cookie: %+v", *env.KeyOps))
+		}
+		if p.Variant == "short-rand-secret" {
+			if n := env.RandBytes["s1"]; n == nil || *n < 32 {
+				got := -1
+				if n != nil {
+					got = *n
+				}
+				verdicts = append(verdicts, fmt.Sprintf("no secret configured and a Config.Rand that hands out 3 bytes per call: the server had taken only %d random bytes when it issued its first cookie (a per-connection secret needs at least 32)", got))
+			}
+			return
 		}
 		if p.Variant == "cookieless-then-silent" {
 			// the sender of the hello goes away: whatever timers the server runs, it must not send anything more
